@@ -382,7 +382,7 @@ func (st *sortTable) prelude() string {
 	var sb strings.Builder
 	sb.WriteString("(declare-datatypes ((Slice 0)) (((mk_slice (s_base Int) (s_off Int) (s_len Int) (s_cap Int)))))\n")
 	sb.WriteString("(declare-datatypes ((Iface 0)) (((mk_iface (i_tag Int) (i_val Int)))))\n")
-	sb.WriteString("(declare-fun sidx (Int Int) Int)\n(assert (forall ((o Int) (k Int)) (! (= (sidx o k) (+ o k)) :pattern ((sidx o k)))))\n")
+	sb.WriteString("@SIDX@")
 	// struct sorts in dependency order (a struct is appended after the sorts of its fields were requested)
 	done := map[string]bool{}
 	var emit func(sn string)
